@@ -611,5 +611,5 @@ func snapMid() {
 	<-flushDone
 	h = append(h, snapRec, flushRec)
 	h = append(h, do(0, "Snap"))
-	report(h, kvModel{newKvState()}, false)
+	report(h, kvModel{newKvState()}, false, "")
 }
